@@ -1,7 +1,8 @@
 (* Properties_C16.v — C16: one call consumes one document from a stream. *)
 From Coq Require Import NArith ZArith List Bool.
 From AJ Require Import Model.Base Model.Value Model.JsonParse.
-From AJ Require Import Spec.Rfc8259 Spec.ParseSpec Proofs.Lex Proofs.ParseComplete.
+From AJ Require Import Model.Stream.
+From AJ Require Import Spec.Rfc8259 Spec.ParseSpec Proofs.Lex Proofs.ParseComplete Proofs.StreamProofs.
 Local Open Scope N_scope.
 
 (* Exactly the bytes of the value are consumed, whatever follows: after a value of the grammar followed by
@@ -28,6 +29,54 @@ Theorem C16_result_independent_of_rest : forall cf, decode_unicode cf = true ->
                     post s1' rest1 /\ post s2' rest2.
 Proof. exact parse_variant_ignores_rest. Qed.
 Print Assumptions C16_result_independent_of_rest.
+
+(* position accounting, for EVERY input and every outcome (success or error): bytes read + bytes left = input *)
+Theorem C16_reads_plus_rest_is_input : forall cf f L i,
+  let s := j_st (json_run cf f L i) in reads s + N.of_nat (length (rest s)) = N.of_nat (length i).
+Proof. exact json_run_position. Qed.
+Print Assumptions C16_reads_plus_rest_is_input.
+
+(* one whole call (deserializeJson on a reader): value of the grammar, then anything: the value, and exactly
+   |whitespace| + |text| bytes read, plus the single look-ahead byte when the value is a number *)
+Theorem C16_call_reads_exactly : forall cf, decode_unicode cf = true ->
+  forall d t v, jvalueD (num_den cf) d t v ->
+  forall L w rest, ws w -> (d <= L)%nat -> (is_number v = true -> delimiter cf rest) ->
+    let o := json_run cf None L (w ++ t ++ rest) in
+    j_err o = (if is_number v     (* a number has looked at the next byte: NUL or whitespace ends it, anything else is an error *)
+               then (match rest with [] => Ok | c :: _ => if (c =? 0)%N || is_space c then Ok else InvalidInput end)
+               else Ok) /\
+    j_doc o = v /\
+    reads (j_st o) = N.of_nat (length (w ++ t)) + extra_read v rest /\
+    JsonParse.rest (j_st o) = after_value v rest.
+Proof. exact json_run_reads_value_strong. Qed.
+Print Assumptions C16_call_reads_exactly.
+
+(* successive calls on one stream of whitespace-separated documents (NDJSON): n documents and n + 1 calls return the n
+   documents in order, each call stopping where the next one must start, and then EmptyInput at the end of the stream *)
+Theorem C16_ndjson_successive_calls : forall cf, decode_unicode cf = true ->
+  forall L ds trail, Forall (doc_ok cf L) ds -> ws trail -> nd_sep ds trail ->
+  (forall calls, json_stream cf L calls 0 (nd_bytes ds trail) = firstn calls (nd_results 0 ds trail)) /\
+  json_stream cf L (S (length ds)) 0 (nd_bytes ds trail) = nd_results 0 ds trail /\
+  map c_doc (nd_results 0 ds trail) = map d_val ds ++ [JNull] /\
+  map c_err (nd_results 0 ds trail) = repeat Ok (length ds) ++ [EmptyInput].
+Proof.
+  intros cf DU L ds trail FA WT SEP. split; [|split].
+  - exact (json_stream_ndjson cf DU L ds trail FA WT SEP).
+  - exact (json_stream_returns_documents cf DU L ds trail FA WT SEP).
+  - exact (nd_results_docs ds trail 0).
+Qed.
+Print Assumptions C16_ndjson_successive_calls.
+
+(* JSON Lines: one document per line *)
+Theorem C16_jsonl_successive_calls : forall cf, decode_unicode cf = true ->
+  forall L ls, Forall (line_ok cf L) ls ->
+  json_stream cf L (S (length ls)) 0 (jsonl_bytes ls) = jsonl_results 0 ls.
+Proof. exact json_stream_returns_documents_jsonl. Qed.
+Print Assumptions C16_jsonl_successive_calls.
+
+(* the premises are satisfiable: a concrete JSON Lines stream *)
+Example C16_jsonl_example : json_stream default_cfg 10 5 0 (jsonl_bytes ex_lines) = jsonl_results 0 ex_lines.
+Proof. vm_compute. reflexivity. Qed.
 
 Example C16_example :   (* "1 2" : the first call stops after the space *)
   let o := json_run default_cfg None 10 [49; 32; 50] in
